@@ -5,69 +5,19 @@ From Coq Require Import Lia.
 From Verif Require Import Spec.DocDomain Base.Str Base.Outcome Model.Ast Model.Token Gen.Keywords Model.Lexer Model.Parser
   Proofs.ParserComplete Proofs.LexInversion Proofs.LexRender.
 
-(* a line break as the printer writes it: a line feed, then line feeds and blanks *)
-Definition nl_text (s : str) : bool :=
-  match s with c :: r => (c =? 10) && forallb (fun x => (x =? 10) || (x =? 32)) r | [] => false end.
-
-Lemma no_literal_starts_with_nl : forallb (fun l => match l with c :: _ => negb (c =? 10) | [] => false end) all_literal_spellings = true.
-Proof. vm_compute. reflexivity. Qed.
-
-Lemma nl_text_nlish s : nl_text s = true -> forallb is_nlish s = true.
-Proof.
-  destruct s as [|c r]; [discriminate|]. cbn [nl_text forallb]. intros H. apply andb_prop in H. destruct H as [Hc Hr].
-  apply andb_true_intro. split.
-  - apply N.eqb_eq in Hc. subst c. reflexivity.
-  - rewrite forallb_forall in Hr |- *. intros x Hx. specialize (Hr x Hx). apply orb_prop in Hr.
-    destruct Hr as [E|E]; apply N.eqb_eq in E; subst x; reflexivity.
-Qed.
-
-Lemma rec_newline_gen nl c rest : nl_text nl = true -> is_nlish c = false -> rec_at NEWLINE nl (c :: rest).
-Proof.
-  intros Hnl Hc. pose proof (nl_text_nlish nl Hnl) as Hall. destruct nl as [|c0 r]; [discriminate|].
-  assert (E0 : c0 = 10) by (cbn [nl_text] in Hnl; apply andb_prop in Hnl; destruct Hnl as [H _]; apply N.eqb_eq in H; exact H). subst c0.
-  split; [|split; [discriminate|reflexivity]].
-  rewrite default_rules_parts. change recognisers with (firstn 9 recognisers ++ (NEWLINE, rec_newline) :: []). rewrite app_assoc.
-  apply best_rule_wins.
-  - unfold rec_newline. rewrite (run_len_app is_nlish (10 :: r) c rest Hall Hc), firstn_app_exact. reflexivity.
-  - cbn [length]. lia.
-  - apply Forall_app. split.
-    + apply (literals_bound _ (fun n => (n < S (length r))%nat)).
-      * intros l Hl. pose proof no_literal_starts_with_nl as H. rewrite forallb_forall in H. specialize (H l Hl).
-        unfold rec_literal. destruct l as [|c1 l]; [discriminate|]. cbn [is_prefix app]. destruct (c1 =? 10) eqn:E; [discriminate|].
-        cbn [andb]. cbv iota. lia.
-      * cbn. lia.
-    + cbn [firstn recognisers]. repeat apply Forall_cons; try apply Forall_nil; cbn [snd]; cbn; try lia; destruct (r ++ c :: rest) as [|? ?]; cbn; lia.
-  - constructor.
-Qed.
+(* nl_text, rec_newline_gen, nl_next, str_eqb_eq and rec_version now live in Proofs/LexFit.v (re-exported by
+   Proofs/LexRender.v), stated for line breaks whose indentation may hold tabs as well. *)
 
 (* ---------------------------------------------------------------------------------------- *)
-(* keywords of the document frame                                                            *)
+(* keywords of the document frame: they fit in front of a blank (or tab), resp. a line feed   *)
 (* ---------------------------------------------------------------------------------------- *)
-Lemma rec_type rest : rec_at TYPE (lit "type") (32 :: rest).
-Proof. split; [destruct rest as [|? [|? ?]]; vm_compute; reflexivity|split; [discriminate|reflexivity]]. Qed.
-Lemma rec_relations rest : rec_at RELATIONS (lit "relations") (10 :: rest).
-Proof. split; [destruct rest as [|? [|? ?]]; vm_compute; reflexivity|split; [discriminate|reflexivity]]. Qed.
-Lemma rec_model rest : rec_at MODEL (lit "model") (10 :: rest).
-Proof. split; [destruct rest as [|? [|? ?]]; vm_compute; reflexivity|split; [discriminate|reflexivity]]. Qed.
-Lemma rec_schema rest : rec_at SCHEMA (lit "schema") (32 :: rest).
-Proof. split; [destruct rest as [|? [|? ?]]; vm_compute; reflexivity|split; [discriminate|reflexivity]]. Qed.
-Lemma rec_define' rest : rec_at DEFINE (lit "define") (32 :: rest).
-Proof. split; [destruct rest as [|? [|? ?]]; vm_compute; reflexivity|split; [discriminate|reflexivity]]. Qed.
-
-(* end of input, or a line feed *)
-Definition nl_next (rest : str) : Prop := match rest with [] => True | c :: _ => c = 10 end.
-Lemma nl_next_delim rest : nl_next rest -> delim_next rest.
-Proof. destruct rest as [|c r]; [exact (fun _ => I)|]. cbn. intros ->. reflexivity. Qed.
-
-Lemma str_eqb_eq a b : str_eqb a b = true -> a = b.
-Proof.
-  revert b. induction a as [|x a IH]; intros [|y b] H; cbn in H; try discriminate; [reflexivity|].
-  apply andb_prop in H. destruct H as [H1 H2]. apply N.eqb_eq in H1. subst y. f_equal. apply IH. exact H2.
-Qed.
-
-Lemma rec_version v rest : std_version v = true -> nl_next rest -> rec_at SCHEMA_VERSION v rest.
-Proof.
-  intros Hv Hr. unfold std_version in Hv. apply orb_prop in Hv. destruct Hv as [Hv|Hv]; [apply orb_prop in Hv; destruct Hv as [Hv|Hv]|];
-    apply str_eqb_eq in Hv; subst v; (destruct rest as [|c rest]; [|cbn in Hr; subst c]);
-    (split; [try (destruct rest as [|? [|? ?]]); vm_compute; reflexivity|split; [discriminate|reflexivity]]).
-Qed.
+Lemma rec_type rest : blank_next rest -> fit TYPE (lit "type") rest.
+Proof. apply (fit_kw TYPE). cbn. tauto. Qed.
+Lemma rec_schema rest : blank_next rest -> fit SCHEMA (lit "schema") rest.
+Proof. apply (fit_kw SCHEMA). cbn. tauto. Qed.
+Lemma rec_define' rest : blank_next rest -> fit DEFINE (lit "define") rest.
+Proof. apply (fit_kw DEFINE). cbn. tauto. Qed.
+Lemma rec_relations rest : lf_next rest -> fit RELATIONS (lit "relations") rest.
+Proof. apply (fit_line RELATIONS). cbn. tauto. Qed.
+Lemma rec_model rest : lf_next rest -> fit MODEL (lit "model") rest.
+Proof. apply (fit_line MODEL). cbn. tauto. Qed.
